@@ -1,0 +1,10 @@
+//go:build !verif
+
+package jsonrpc2
+
+// verifTrace is the instrumentation point of updateInFlight. In normal builds it
+// does nothing; with the build tag "verif" (conn_verif.go) it records the abstract
+// state of the connection before and after every updateInFlight call.
+func verifTrace(*Connection, *inFlightState) func() { return verifNop }
+
+func verifNop() {}
